@@ -53,6 +53,8 @@ struct Inst {
     outputs_have_assets: bool,
     /// lovelace entering through a reward withdrawal (implicit input)
     implicit: u64,
+    /// tokens the transaction mints (they enter on the input side)
+    minted: Vec<((Vec<u8>, Vec<u8>), i128)>,
 }
 
 fn make_instance(r: &mut Rng, ring: &'static KeyRing, n_offered: usize, k: u8) -> Option<Inst> {
@@ -116,6 +118,42 @@ fn make_instance(r: &mut Rng, ring: &'static KeyRing, n_offered: usize, k: u8) -
             outputs_have_assets = true;
         }
     }
+    // now and then the transaction mints under two policies while an output asks for a token that is NOT
+    // minted (the later policy with the earlier policy's asset name): it must come from the offered UTxOs
+    let mut minted: Vec<((Vec<u8>, Vec<u8>), i128)> = vec![];
+    let mut wanted_unminted: Option<((Vec<u8>, Vec<u8>), i128)> = None;
+    if multi && burned.is_none() && s.r.below(6) == 0 {
+        let (na, nb) = (ring.natives[1].clone(), ring.natives[2].clone());
+        let (mut pa, mut pb) = (na.hash().to_bytes(), nb.hash().to_bytes());
+        let (mut sa, mut sb) = (na, nb);
+        if pa > pb {
+            std::mem::swap(&mut pa, &mut pb);
+            std::mem::swap(&mut sa, &mut sb);
+        }
+        let (name_a, name_b) = (vec![0x6e, 0x31], vec![0x6e, 0x32]);
+        let mut mb = MintBuilder::new();
+        let ok_a = guard(|| mb.add_asset(&MintWitness::new_native_script(&NativeScriptSource::new(&sa)), &AssetName::new(name_a.clone()).unwrap(), &Int::new_i32(5)));
+        let ok_b = guard(|| mb.add_asset(&MintWitness::new_native_script(&NativeScriptSource::new(&sb)), &AssetName::new(name_b.clone()).unwrap(), &Int::new_i32(7)));
+        if matches!(ok_a, Ok(Ok(()))) && matches!(ok_b, Ok(Ok(()))) {
+            tb.set_mint_builder(&mb);
+            minted.push(((pa.clone(), name_a.clone()), 5));
+            minted.push(((pb.clone(), name_b.clone()), 7));
+            // an output that takes the minted tokens and some of (later policy, earlier name)
+            let q = 1 + s.r.below(20) as i128;
+            let mut v = Val::coin(2_000_000);
+            v.add_asset((pa.clone(), name_a.clone()), 5);
+            v.add_asset((pb.clone(), name_b.clone()), 7);
+            v.add_asset((pb.clone(), name_a.clone()), q);
+            let kx = s.key_ix();
+            let addr = s.key_address(kx);
+            let out = TransactionOutput::new(&addr, &val_to_csl(&v));
+            if matches!(guard(|| tb.add_output(&out)), Ok(Ok(()))) {
+                wanted_unminted = Some(((pb, name_a), q));
+                outputs_have_assets = true;
+                outs_desc.push(format!("coin=2000000 assets=[5 minted, 7 minted, {} not minted]", q));
+            }
+        }
+    }
     // now and then the caller asks for a minimum fee around the fee the selection will reach
     let mut asked_min_fee: Option<u64> = None;
     if s.r.below(4) == 0 {
@@ -176,6 +214,11 @@ fn make_instance(r: &mut Rng, ring: &'static KeyRing, n_offered: usize, k: u8) -
                 v.add_asset(id.clone(), match s.r.below(3) { 0 => *q, 1 => *q / 2 + 1, _ => *q * 2 });
             }
         }
+        if let Some((id, q)) = &wanted_unminted {
+            if s.r.bool() {
+                v.add_asset(id.clone(), match s.r.below(3) { 0 => *q, 1 => *q / 2 + 1, _ => *q * 2 });
+            }
+        }
         let kx = s.key_ix();
         let addr = if s.r.below(8) == 0 { ring.byron[s.r.usize(ring.byron.len())].addr.to_address() } else { s.key_address(kx) };
         let i = s.new_utxo(&addr, v.clone());
@@ -183,8 +226,8 @@ fn make_instance(r: &mut Rng, ring: &'static KeyRing, n_offered: usize, k: u8) -
         offered_csl.add(&s.csl_utxo(i, None, None));
         off_desc.push(format!("#{} coin={} assets={:?}", j, v.coin, v.assets.values().collect::<Vec<_>>()));
     }
-    let desc = json!({"strategy": strat(k).1, "outputs": outs_desc, "offered": off_desc, "pre_existing": pre.iter().map(|i| s.utxos[*i].val.coin).collect::<Vec<_>>(), "withdrawal": implicit, "identical_outputs": identical, "burn": burned.as_ref().map(|(_, q)| q.to_string()), "set_min_fee": asked_min_fee});
-    Some(Inst { tb, utxos: s.utxos, offered, pre, offered_csl, k, desc, outputs_have_assets, implicit })
+    let desc = json!({"strategy": strat(k).1, "outputs": outs_desc, "offered": off_desc, "pre_existing": pre.iter().map(|i| s.utxos[*i].val.coin).collect::<Vec<_>>(), "withdrawal": implicit, "identical_outputs": identical, "burn": burned.as_ref().map(|(_, q)| q.to_string()), "set_min_fee": asked_min_fee, "mints_two_policies": !minted.is_empty()});
+    Some(Inst { tb, utxos: s.utxos, offered, pre, offered_csl, k, desc, outputs_have_assets, implicit, minted })
 }
 
 fn outpoints_of(tb: &TransactionBuilder) -> Vec<(Vec<u8>, u64)> {
@@ -194,6 +237,9 @@ fn outpoints_of(tb: &TransactionBuilder) -> Vec<(Vec<u8>, u64)> {
 
 fn sum_of(inst: &Inst, ops: &[(Vec<u8>, u64)]) -> Option<Val> {
     let mut v = Val::coin(inst.implicit);
+    for (id, q) in &inst.minted {
+        v.add_asset(id.clone(), *q);
+    }
     for (t, i) in ops {
         v.add(&vkit::ledger::find_utxo(&inst.utxos, t, *i)?.val);
     }
@@ -529,7 +575,7 @@ fn tuned(ctx: &mut Ctx, r: &mut Rng, _i: u64) {
     let mut desc = inst.desc.clone();
     desc["tuned"] = json!(format!("offered UTxO {}#{} made {} lovelace poorer (slack {} + {})", hx(&victim.0[..4]), victim.1, slack + d, slack, d));
     desc["offered"] = json!(inst.offered.iter().enumerate().map(|(j, oi)| format!("#{} coin={} assets={:?}", j, utxos[*oi].val.coin, utxos[*oi].val.assets.values().collect::<Vec<_>>())).collect::<Vec<_>>());
-    let inst2 = Inst { tb: inst.tb.clone(), utxos, offered: inst.offered.clone(), pre: inst.pre.clone(), offered_csl, k: inst.k, desc, outputs_have_assets: inst.outputs_have_assets, implicit: inst.implicit };
+    let inst2 = Inst { tb: inst.tb.clone(), utxos, offered: inst.offered.clone(), pre: inst.pre.clone(), offered_csl, k: inst.k, desc, outputs_have_assets: inst.outputs_have_assets, implicit: inst.implicit, minted: inst.minted.clone() };
     ctx.bucket("tuned.second-run");
     run_leaf(ctx, &inst2, &tape);
 }
